@@ -66,7 +66,8 @@ class IncludeScenario(Scenario):
         rng = stream(seed, "swarm")
         # scopes: root plus nested schemas; each scope has 0-2 include fields
         def scope(depth):
-            s = {"includes": [{"key": "inc%d" % i, "startdir": rng.choice(STARTDIRS)} for i in range(rng.choice([0, 1, 1, 2]))], "subs": {}}
+            s = {"includes": [{"key": "inc%d" % i, "startdir": rng.choice(STARTDIRS)} for i in range(rng.choice([0, 1, 1, 2]))], "subs": {},
+                 "subs_first": rng.random() < 0.5}
             if depth < 2:
                 for k in rng.sample(["s1", "s2"], rng.randint(0, 2)):
                     s["subs"][k] = scope(depth + 1)
@@ -84,12 +85,23 @@ class IncludeScenario(Scenario):
         root = cc.Schema(dynamic=True)
 
         def fill(sch, s):
-            for inc in s["includes"]:
-                sch[inc["key"]] = cc.IncludeField(startdir=inc["startdir"])
-            for k, sub in s["subs"].items():
-                child = cc.Schema(dynamic=True)
-                sch[k] = child
-                fill(child, sub)
+            def incs():
+                for inc in s["includes"]:
+                    sch[inc["key"]] = cc.IncludeField(startdir=inc["startdir"])
+
+            def subs():
+                for k, sub in s["subs"].items():
+                    child = cc.Schema(dynamic=True)
+                    sch[k] = child
+                    fill(child, sub)
+            # the declaration order of include fields and nested schemas is free; the documented processing
+            # order (all includes of a scope, then its nested scopes) does not depend on it
+            if s.get("subs_first"):
+                subs()
+                incs()
+            else:
+                incs()
+                subs()
         fill(root, st.h["root"])
         del mk
         return root
@@ -130,6 +142,14 @@ class IncludeScenario(Scenario):
                     p = self.resolve(st, inc, name)
                     if p and p not in files:
                         child = gen_tree(rng)
+                        for sk, ssub in s["subs"].items():
+                            if rng.random() < 0.4:
+                                sub_t = child.get(sk) if isinstance(child.get(sk), dict) else {}
+                                for inc3 in ssub["includes"]:
+                                    if rng.random() < 0.6:
+                                        sub_t[inc3["key"]] = rng.choice(FILES)
+                                sub_t.setdefault(rng.choice(KEYS), rng.choice(LEAVES))
+                                child[sk] = sub_t
                         # an included file may itself name includes of this scope or of nested scopes
                         if rng.random() < 0.3:
                             for inc2 in s["includes"]:
@@ -144,19 +164,31 @@ class IncludeScenario(Scenario):
 
         main = gen_tree(rng)
         fill(st.h["root"], main, 0)
-        # files referenced from included content (chains): give them content too, without further includes
-        pending = True
-        guard = 0
-        while pending and guard < 3:
-            guard += 1
-            pending = False
-            for p, child in list(files.items()):
-                for inc in st.h["root"]["includes"]:
-                    v = child.get(inc["key"])
-                    q = self.resolve(st, inc, v) if isinstance(v, str) else None
-                    if q and q not in files:
-                        files[q] = gen_tree(rng)
-                        pending = True
+        # files referenced from included content (chains, nested scopes named by an included file): walk the
+        # documents the way the documented processing order does and give (most of) the missing files content
+        def missing(s, tree, acc):
+            tree = dict(tree)
+            for inc in s["includes"]:
+                fn = tree.get(inc["key"])
+                p = self.resolve(st, inc, fn) if isinstance(fn, str) else None
+                if p is None:
+                    continue
+                if p not in files:
+                    acc.append(p)
+                    continue
+                tree = ref_merge(tree, files[p])
+            for k, sub in s["subs"].items():
+                if isinstance(tree.get(k), dict) and tree[k]:
+                    missing(sub, tree[k], acc)
+
+        for _ in range(3):
+            acc = []
+            missing(st.h["root"], main, acc)
+            if not acc:
+                break
+            for p in acc:
+                if p not in files and rng.random() < 0.85:
+                    files[p] = gen_tree(rng)
         op = {"op": "load", "fmt": fmt, "main": main, "files": files}
         if files and rng.random() < st.h["p_fault"]:
             victim = rng.choice(sorted(files))
